@@ -1,0 +1,179 @@
+"""JSON.parse for the JSON global object (ECMAScript 25.5).
+
+The host ``json`` module is not used: it accepts more than the JSON grammar
+(``NaN``, ``Infinity``), keeps integers of any size exact, and reports errors
+with a host exception.
+"""
+
+import re
+
+from .errors import JSSyntaxError
+from .values import NULL, JSArray, JSObject, JSValue
+
+_WHITESPACE = re.compile(r"[ \t\n\r]*")
+_NUMBER = re.compile(r"-?(?:0|[1-9][0-9]*)(\.[0-9]+)?([eE][+-]?[0-9]+)?")
+_STRING_CHUNK = re.compile(r'[^"\\\x00-\x1f]*')
+_HEX4 = re.compile(r"[0-9a-fA-F]{4}")
+_ESCAPES = {
+    '"': '"',
+    "\\": "\\",
+    "/": "/",
+    "b": "\b",
+    "f": "\f",
+    "n": "\n",
+    "r": "\r",
+    "t": "\t",
+}
+_LITERALS = (("true", True), ("false", False), ("null", NULL))
+_MAX_SAFE_INTEGER = 2**53
+
+
+class _JSONParser:
+    """Recursive-descent parser for the JSON grammar producing JavaScript values."""
+
+    def __init__(self, text: str):
+        self.text = text
+        self.pos = 0
+
+    def error(self, message: str) -> JSSyntaxError:
+        return JSSyntaxError(f"JSON.parse: {message} at position {self.pos}")
+
+    def skip_whitespace(self) -> None:
+        self.pos = _WHITESPACE.match(self.text, self.pos).end()
+
+    def parse(self) -> JSValue:
+        self.skip_whitespace()
+        value = self.parse_value()
+        self.skip_whitespace()
+        if self.pos != len(self.text):
+            raise self.error("unexpected non-whitespace character after JSON")
+        return value
+
+    def parse_value(self) -> JSValue:
+        text = self.text
+        ch = text[self.pos : self.pos + 1]
+        if ch == '"':
+            return self.parse_string()
+        if ch == "{":
+            return self.parse_object()
+        if ch == "[":
+            return self.parse_array()
+        if ch == "-" or "0" <= ch <= "9":
+            return self.parse_number()
+        for word, value in _LITERALS:
+            if text.startswith(word, self.pos):
+                self.pos += len(word)
+                return value
+        if ch == "":
+            raise self.error("unexpected end of JSON input")
+        raise self.error(f"unexpected token {ch!r}")
+
+    def parse_number(self) -> JSValue:
+        match = _NUMBER.match(self.text, self.pos)
+        if match is None:
+            raise self.error("no number after minus sign")
+        self.pos = match.end()
+        literal = match.group(0)
+        if match.group(1) is None and match.group(2) is None:
+            number = int(literal)
+            # Host integers stand for doubles only while they are exact
+            if number != 0 and -_MAX_SAFE_INTEGER <= number <= _MAX_SAFE_INTEGER:
+                return number
+            if number == 0 and literal[0] != "-":
+                return 0
+        return float(literal)
+
+    def parse_string(self) -> str:
+        text = self.text
+        self.pos += 1  # opening quote
+        parts = []
+        while True:
+            match = _STRING_CHUNK.match(text, self.pos)
+            parts.append(match.group(0))
+            self.pos = match.end()
+            ch = text[self.pos : self.pos + 1]
+            if ch == '"':
+                self.pos += 1
+                return "".join(parts)
+            if ch == "":
+                raise self.error("unterminated string")
+            if ch != "\\":
+                raise self.error("bad control character in string literal")
+            esc = text[self.pos + 1 : self.pos + 2]
+            if esc in _ESCAPES:
+                parts.append(_ESCAPES[esc])
+                self.pos += 2
+            elif esc == "u":
+                parts.append(self.parse_unicode_escape())
+            else:
+                self.pos += 1
+                raise self.error("bad escaped character")
+
+    def parse_unicode_escape(self) -> str:
+        """\\uXXXX at self.pos; an escaped surrogate pair becomes one character."""
+        match = _HEX4.match(self.text, self.pos + 2)
+        if match is None:
+            self.pos += 2
+            raise self.error("bad Unicode escape")
+        code = int(match.group(0), 16)
+        self.pos += 6
+        if 0xD800 <= code <= 0xDBFF and self.text.startswith("\\u", self.pos):
+            low = _HEX4.match(self.text, self.pos + 2)
+            if low is not None and 0xDC00 <= int(low.group(0), 16) <= 0xDFFF:
+                self.pos += 6
+                code = 0x10000 + ((code - 0xD800) << 10) + (int(low.group(0), 16) - 0xDC00)
+        return chr(code)
+
+    def parse_array(self) -> JSArray:
+        array = JSArray()
+        self.pos += 1  # [
+        self.skip_whitespace()
+        if self.text.startswith("]", self.pos):
+            self.pos += 1
+            return array
+        while True:
+            self.skip_whitespace()
+            array.push(self.parse_value())
+            self.skip_whitespace()
+            ch = self.text[self.pos : self.pos + 1]
+            self.pos += 1
+            if ch == "]":
+                return array
+            if ch != ",":
+                self.pos -= 1
+                raise self.error("expected ',' or ']' after array element")
+
+    def parse_object(self) -> JSObject:
+        obj = JSObject()
+        self.pos += 1  # {
+        self.skip_whitespace()
+        if self.text.startswith("}", self.pos):
+            self.pos += 1
+            return obj
+        while True:
+            self.skip_whitespace()
+            if not self.text.startswith('"', self.pos):
+                raise self.error("expected double-quoted property name")
+            key = self.parse_string()
+            self.skip_whitespace()
+            if not self.text.startswith(":", self.pos):
+                raise self.error("expected ':' after property name")
+            self.pos += 1
+            self.skip_whitespace()
+            obj.set(key, self.parse_value())
+            self.skip_whitespace()
+            ch = self.text[self.pos : self.pos + 1]
+            self.pos += 1
+            if ch == "}":
+                return obj
+            if ch != ",":
+                self.pos -= 1
+                raise self.error("expected ',' or '}' after property value")
+
+
+def json_parse(text: str) -> JSValue:
+    """JSON.parse(text) without reviver: a JavaScript value or JSSyntaxError."""
+    try:
+        return _JSONParser(text).parse()
+    except RecursionError:
+        raise JSSyntaxError("JSON.parse: structure is nested too deeply") from None
